@@ -8,6 +8,7 @@ import (
 	"github.com/pip-services3-gox/pip-services3-expressions-gox/calculator/parsers"
 	"github.com/pip-services3-gox/pip-services3-expressions-gox/calculator/variables"
 	"github.com/pip-services3-gox/pip-services3-expressions-gox/mustache"
+	mparsers "github.com/pip-services3-gox/pip-services3-expressions-gox/mustache/parsers"
 	"github.com/pip-services3-gox/pip-services3-expressions-gox/variants"
 )
 
@@ -19,6 +20,7 @@ type c05inst struct {
 	parser *parsers.ExpressionParser
 	calc   *calculator.ExpressionCalculator
 	tmpl   *mustache.MustacheTemplate
+	mpars  *mparsers.MustacheParser
 	fnops  []Ev   // changes made to the calculator's default functions so far (a fresh calculator gets the same ones)
 	mgr    string // variant operations installed last ("" = the default)
 	text   string // expression set last
@@ -120,6 +122,25 @@ func obsCalc(c *calculator.ExpressionCalculator, text string) []any {
 	return []any{"ok", int(res.Type()), cl(res.String())}
 }
 
+func obsMParser(p *mparsers.MustacheParser, text string) []any {
+	var err error
+	if oc, _ := guarded(func() { err = p.SetTemplate(text) }); oc != "ok" {
+		return []any{"panic"}
+	}
+	if err != nil {
+		return []any{"error", errCode(err)}
+	}
+	var tree func(ts []*mparsers.MustacheToken) string
+	tree = func(ts []*mparsers.MustacheToken) string {
+		s := ""
+		for _, t := range ts {
+			s += fmt.Sprintf("%d:%q@%d:%d[%s] ", t.Type(), t.Value(), t.Line(), t.Column(), tree(t.Tokens()))
+		}
+		return s
+	}
+	return []any{"ok", tree(p.ResultTokens()), strings.Join(p.VariableNames(), ","), tokRender(p.OriginalTokens()), cl(p.Template())}
+}
+
 func obsTmpl(t *mustache.MustacheTemplate, text string) []any {
 	var err error
 	var res string
@@ -144,7 +165,7 @@ func init() {
 			text := string(toRunes(in["input"]))
 			e := Ev{"op": "reuse", "what": what, "input": cps(text)}
 			if toBool(in["first"]) || c05cur == nil {
-				c05cur = &c05inst{parser: parsers.NewExpressionParser(), calc: calculator.NewExpressionCalculator(), tmpl: mustache.NewMustacheTemplate()}
+				c05cur = &c05inst{parser: parsers.NewExpressionParser(), calc: calculator.NewExpressionCalculator(), tmpl: mustache.NewMustacheTemplate(), mpars: mparsers.NewMustacheParser()}
 				c05cur.calc.SetAutoVariables(false)
 				e["first"] = true
 			} else {
@@ -196,6 +217,9 @@ func init() {
 				}
 				e["obs"] = []any{oc(c1, e1), second, tr(t1, te1)}
 				e["fresh"] = []any{oc(c3, e3), oc(c3, e3), tr(t3, te3)}
+			case "mparser": // the template parser: compiled token tree, variable names, original tokens
+				e["obs"] = obsMParser(c05cur.mpars, text)
+				e["fresh"] = obsMParser(mparsers.NewMustacheParser(), text)
 			case "parsertok":
 				e["obs"] = obsParserTokens(c05cur.parser, text)
 				e["fresh"] = obsParserTokens(parsers.NewExpressionParser(), text)
@@ -297,7 +321,7 @@ func init() {
 			return e
 		}
 	}
-	for _, w := range []string{"ctor", "parser", "calculator", "template", "parsertok", "parserexpr", "fnop", "calceval", "setops", "reeval"} {
+	for _, w := range []string{"mparser", "ctor", "parser", "calculator", "template", "parsertok", "parserexpr", "fnop", "calceval", "setops", "reeval"} {
 		c05exec[w] = mk(w)
 	}
 	c05extra = append(c05extra, genC05b)
@@ -306,13 +330,13 @@ func init() {
 var c05exprPool = []string{"1 / 0", "arr[9]", "Nope(1)", "1 << (0 - 1)", "'a' - 1", "a / (b - 3)", "Min(1)", "a LIKE b", "'abc' = 'abc'", "'abc' = 'ABC'", "'x' + 'y'", "'x' + 'Y'", "s = 'abc'", "S = 'ABC'", "a + b", "a <= b", "a <> b", "a << 1", "a >= b", "a >> 1", "a != b", "1 +", "2 + * 3", "(1 + 2", "a[1", "f(a,",
 	"x y 7 + 1", "a * b + 2", "] ] ) , 5", "'abc' + s", "NOT a IS NULL", "a NOT", "", "$", "a IS", "Min(a, b)", "a /* c", "'open"}
 var c05tmplPool = []string{"Hello, {{NAME}}!", "Hello, {{NAME", "{{#a}}x{{/a}}", "{{#a}}x", "{{/a}}", "{{{NAME}}}", "plain text", "{{", "}}", "",
-	"{{#if e}}no{{/if}}{{^e}}yes{{/e}}", "{{a}}{{ NAME }} {", "{{#a}}{{#e}}{{/a}}", "{{! c }}t"}
+	"{{#if e}}no{{/if}}{{^e}}yes{{/e}}", "{{a}}{{ NAME }} {", "{{#a}}{{#e}}{{/a}}", "{{! c }}t", "  \t ", "{{b}} and {{B}}"}
 
 func genC05b(g *Gen) {
 	r := g.Rand()
-	for _, what := range []string{"parser", "calculator", "template"} {
+	for _, what := range []string{"parser", "calculator", "template", "mparser"} {
 		pool := c05exprPool
-		if what == "template" {
+		if what == "template" || what == "mparser" {
 			pool = c05tmplPool
 		}
 		// all ordered pairs (thorough: triples), and random longer histories
@@ -332,7 +356,7 @@ func genC05b(g *Gen) {
 			var seg []Ev
 			for k := 0; k < 3+r.Intn(6); k++ {
 				var in string
-				if what == "template" {
+				if what == "template" || what == "mparser" {
 					in = pool[r.Intn(len(pool))]
 					if r.Intn(3) == 0 {
 						in = string(mutateSnippet(g, in))
